@@ -151,10 +151,10 @@ func (s Script) text() string {
 type target struct{}
 
 func (target) String() string              { return "//verif:c30" }
-func (target) ShouldShowProgress() bool     { return false }
-func (target) SetProgress(float32)          {}
-func (target) ProgressDescription() string  { return "running" }
-func (target) ShouldExitOnError() bool      { return true }
+func (target) ShouldShowProgress() bool    { return false }
+func (target) SetProgress(float32)         {}
+func (target) ProgressDescription() string { return "running" }
+func (target) ShouldExitOnError() bool     { return true }
 
 var (
 	executor   *process.Executor
